@@ -71,13 +71,45 @@ def run(prop, work, repo=None):
         ok = 'VERIFICATION:- SUCCESSFUL' in out
         failed = 'VERIFICATION:- FAILED' in out
         detail = ''
+        cex = None
         if failed:
             detail = '; '.join(re.findall(r'Failed Checks: (.*)', out)[:5])
+            cex = counterexample(scratch, env, fn)
         elif not ok:
             detail = 'kani gave no verdict: ' + out[-400:]
         results.append({'id': oid, 'harness': fn, 'strength': strength,
                         'status': 'discharged' if ok else ('failed' if failed else 'unknown'),
-                        'detail': detail, 'where': target, 'wall_s': round(time.time() - t0, 1), 'cmd': ' '.join(cmd)})
+                        'detail': detail, 'where': target, 'wall_s': round(time.time() - t0, 1), 'cmd': ' '.join(cmd),
+                        'counterexample': cex})
     shutil.rmtree(os.path.join(work, 'kani_target'), ignore_errors=True)
     shutil.rmtree(scratch, ignore_errors=True)
     return results
+
+
+def counterexample(scratch, env, fn):
+    """Kani's counterexample, replayed: the harness is re-run with concrete playback, which writes a unit test with the
+    failing concrete values next to the harness (in the scratch copy); that test is then executed with `cargo kani playback`
+    against the real function. Returns the test text and whether the replay reproduced the failure."""
+    try:
+        p = subprocess.run(['cargo', 'kani', '--harness', fn, '-Z', 'concrete-playback', '--concrete-playback=inplace', '--output-format', 'terse'],
+                           cwd=scratch, env=env, stdout=subprocess.PIPE, stderr=subprocess.STDOUT, text=True, timeout=1800)
+        m = re.search(r'(kani_concrete_playback_\w+)', p.stdout)
+        test_text = ''
+        name = m.group(1) if m else None
+        if name:
+            for root, _, files in os.walk(os.path.join(scratch, 'src')):
+                for f in files:
+                    t = open(os.path.join(root, f)).read()
+                    k = t.find('fn ' + name)
+                    if k >= 0:
+                        a = t.rfind('#[test]', 0, k)
+                        b = t.find('\n}', k)
+                        test_text = t[a:b + 2]
+        replayed = None
+        if name:
+            q = subprocess.run(['cargo', 'kani', 'playback', '-Z', 'concrete-playback', '--', name],
+                               cwd=scratch, env=env, stdout=subprocess.PIPE, stderr=subprocess.STDOUT, text=True, timeout=1800)
+            replayed = ('test result: FAILED' in q.stdout) or ('panicked' in q.stdout)
+        return {'playback_test': test_text, 'replayed_against_real_function': replayed}
+    except Exception as e:  # never let the replay step change the verdict
+        return {'error': str(e)}
